@@ -439,9 +439,19 @@ impl<'a> FieldParser<'a> {
                 self.check_size(&span, &quote!(#size_field));
                 let parse_element =
                     self.parse_array_element(&format_ident!("head"), width, type_id, decl);
+                if padding_size.is_some() {
+                    // The span is already the padded region `head`: narrow it
+                    // to the array, what follows in the region is padding.
+                    self.tokens.extend(quote! {
+                        let (mut head, _) = #span.split_at(#size_field);
+                    });
+                } else {
+                    self.tokens.extend(quote! {
+                        let (mut head, tail) = #span.split_at(#size_field);
+                        #span = tail;
+                    });
+                }
                 self.tokens.extend(quote! {
-                    let (mut head, tail) = #span.split_at(#size_field);
-                    #span = tail;
                     let mut #id = Vec::new();
                     while !head.is_empty() {
                         #id.push(#parse_element?);
